@@ -10,7 +10,7 @@ var c03Sanctioned = map[string][]string{
 	},
 	"extractor/filesystem/language/golang/gomod.Extractor.Extract": {
 		"!next(range(…#0))#0",
-		"extractor/filesystem/language/golang/gomod.Extractor.extractGoMod(…,…)#0[next(…)#1]#1",
+		"extractor/filesystem/language/golang/gomod.extractGoMod(…)#0[next(…)#1]#1",
 	},
 	"extractor/filesystem/language/golang/gomod.Extractor.extractGoMod": {
 		"!next(range(make(map)))#0",
@@ -26,6 +26,9 @@ var c03Sanctioned = map[string][]string{
 		"!bufio.Scanner.Scan(bufio.NewScanner(param2.Reader))",
 		"!extractor/filesystem/language/java/gradlelockfile.isGradleLockFileDepLine(strings.TrimSpace(bufio.Scanner.Text(bufio.NewScanner(…))))",
 		"extractor/filesystem/language/java/gradlelockfile.parseToGradlePackageDetail(strings.TrimSpace(bufio.Scanner.Text(…)))#1 != nil:error",
+	},
+	"extractor/filesystem/language/javascript/packagelockjson.Extractor.extractPkgLock": {
+		"range-end: golang.org/x/exp/maps.Values(extractor/filesystem/language/javascript/packagelockjson.parseNpmLock(local:**packagelockjson.LockFile))",
 	},
 	"extractor/filesystem/language/php/composerlock.Extractor.Extract": {
 		"range-end: local:**composerlock.composerLock.PackagesDev",
